@@ -292,6 +292,13 @@ def has_dot_segments(iri):
 
 # ------------------------------------------------------------------ shared helpers
 
+def _dir_tail(iri, depth):
+    m = re.match(r"^(https?://[^/?#]+/(?:[^?#]*/)?)((?:[^/?#]+/){%d}[^/?#]+)$" % (depth - 1), iri)
+    return (m.group(1), m.group(2)) if m else None
+
+
+_PLAIN_REL = re.compile(r"^[^:/?#.<>\\][^:?#<>\\]*$")    # a path-relative reference without scheme, query, fragment
+
 NUM_INT = re.compile(r"^[+-]?[0-9]+$")                      # Turtle [19] INTEGER
 NUM_DEC = re.compile(r"^[+-]?[0-9]*\.[0-9]+$")              # [20] DECIMAL
 NUM_DBL = re.compile(r"^[+-]?(?:[0-9]+\.[0-9]*[eE][+-]?[0-9]+|\.[0-9]+[eE][+-]?[0-9]+|[0-9]+[eE][+-]?[0-9]+)$")  # [21]
@@ -427,6 +434,9 @@ class TurtleWriter:
         self.toks = []            # (text, kind)
         self.labels = _label_map(quads, ch, TTL_LABELS, "fancy_labels")
         self.eol = "\r\n" if ch.flag("crlf", 0.15) else ("\r" if ch.flag("cr_eol", 0.08) else "\n")
+        self.used_rel = {}        # plain path-relative spelling (unescaped) -> the text written between < and >
+        self.forced = {}          # IRI -> (text to write, unescaped reference): the same spelling under a new base
+        self.rebase = ch.flag("rebase", 0.45)
 
     # ---------------- token stream with white space policy
     def emit(self, text, kind):
@@ -496,9 +506,17 @@ class TurtleWriter:
     def iri_ref(self, i):
         """<…> : absolute or relative to the current base, optionally with UCHAR escapes"""
         ch = self.ch
+        if i in self.forced:
+            # the very spelling used earlier in the document, which meant another IRI under the previous base
+            emitted, ref = self.forced[i]
+            ch.log.append(("res", self.base, ref, i))
+            ch.used["rebase_reuse"] += 1
+            return "<" + emitted + ">"
         text = i
         if ch.flag("rel_iri", 0.5) and not has_dot_segments(i) and not has_dot_segments(self.base):
             k = ch.pick(5)
+            if self.rebase and ch.pick(2):
+                k = 3          # documents that change the base prefer path-relative references
             rel = show_ref(relativize(parse_ref(self.base), parse_ref(i), k))
             if resolve_str(self.base, rel) == i:   # the writer's own sanity check (also done in Lean)
                 ch.log.append(("rel", k, self.base, i, rel))
@@ -517,7 +535,85 @@ class TurtleWriter:
                 out.append(uchar(k % 2 == 0, k >= 4, c))
             else:
                 out.append(c)
+        if text != i and _PLAIN_REL.match(text) and not has_dot_segments(text):
+            self.used_rel[text] = "".join(out)
         return "<" + "".join(out) + ">"
+
+    def maybe_rebase(self, upcoming):
+        """Between top-level statements / graph blocks: change the base (@base or BASE).  When possible the new base is
+        chosen so that a relative reference already used in the document now denotes `t`, one of the IRIs written
+        next — the same characters between < and > mean different IRIs before and after the directive."""
+        ch = self.ch
+        if not self.rebase:
+            if ch.flag("base_directive", 0.04):
+                self.directive_base(ch.choice(BASES))
+            return
+        if ch.pick(2) == 0:
+            return
+        cands = []
+        for t in upcoming:
+            for r in sorted(self.used_rel):
+                pre = t[: len(t) - len(r)]
+                if not t.endswith(r) or not pre.endswith("/") or has_dot_segments(t):
+                    continue
+                pr = parse_ref(pre)
+                if pr["scheme"] is None or pr["auth"] is None or pr["query"] is not None or pr["frag"] is not None:
+                    continue
+                for last in ("doc", "", "b.ttl"):
+                    b2 = pre + last
+                    if b2 != self.base and resolve_str(b2, r) == t and resolve_str(self.base, r) != t \
+                            and not has_dot_segments(b2):
+                        cands.append((t, r, b2))
+        if cands:
+            t, r, b2 = ch.choice(cands)
+            self.directive_base(b2)
+            self.forced = {t: (self.used_rel[r], r)}
+        elif ch.pick(3) == 0:
+            self.directive_base(ch.choice(BASES))
+
+    def _plan_twins(self, units):
+        """Two IRIs with the same last path segment(s) in different directories, written in different units: the base is
+        set to the first one's directory before the first unit and to the second one's directory before the second,
+        and both are written with the very same relative reference."""
+        ch = self.ch
+        found = []
+        for a in range(len(units)):
+            for b in range(a + 1, len(units)):
+                for u in set(units[a]):
+                    for t in set(units[b]):
+                        if u == t or has_dot_segments(u) or has_dot_segments(t):
+                            continue
+                        for depth in (1, 2):
+                            mu, mt = _dir_tail(u, depth), _dir_tail(t, depth)
+                            if mu and mt and mu[1] == mt[1] and mu[0] != mt[0] and _PLAIN_REL.match(mu[1]):
+                                found.append((a, b, u, t, mu[0], mt[0], mu[1]))
+        if not found or ch.pick(5) == 0:
+            return {}
+        a, b, u, t, du, dt, tail = ch.choice(found)
+        text = "".join(uchar(True, ch.pick(2) == 0, c) if (not iri_char(c) or ch.pick(12) == 0) else c for c in tail)
+        return {a: (u, du, tail, text), b: (t, dt, tail, text)}
+
+    def _unit_start(self, ui, iris):
+        ch = self.ch
+        if ui in self.plan:
+            iri, d, tail, text = self.plan[ui]
+            b2 = d + ch.choice(["doc", "", "b.ttl", "x/.." if False else "index"])
+            if resolve_str(b2, tail) == iri:
+                self.directive_base(b2)
+                self.forced = {iri: (text, tail)}
+                self.used_rel[tail] = text
+                ch.used["rebase_twin"] += 1
+                return
+        self.maybe_rebase(iris)
+
+    def _group_iris(self, s, pos):
+        """IRIs that the next statement writes directly (not inside nested nodes)"""
+        out = [s[1]] if s[0] == "I" else []
+        for p, o in pos:
+            out.append(p[1])
+            if o[0] == "I":
+                out.append(o[1])
+        return out
 
     def _add_dots(self, rel):
         """redundant dot segments (RFC 3986 5.2.4 removes them): ./x, x/./y, zz/../x, and '..' above the root"""
@@ -545,6 +641,8 @@ class TurtleWriter:
 
     def iri_tok(self, i, verb=False):
         ch = self.ch
+        if i in self.forced:
+            return (self.iri_ref(i), "iri")
         if verb and i == RDF_TYPE and ch.flag("a_keyword", 0.7):
             return ("a", "a")
         if ch.flag("pname", 0.6) or (getattr(self, "kw_names", None) and "pname" not in ch.off and ch.pick(3)):
@@ -848,7 +946,8 @@ class TurtleWriter:
 
     def directive_base(self, new):
         ch = self.ch
-        if ch.flag("sparql_base", 0.4):
+        self.forced = {}
+        if ch.flag("sparql_base", 0.5):
             self.emit(ch.choice(["BASE", "base", "Base", "bAsE"]) if ch.flag("kw_case", 0.4) else "BASE", "kw")
             self.emit(self.iri_ref(new), "iri")
             self.emit_nl()
@@ -902,15 +1001,30 @@ class TurtleWriter:
             else:
                 blocks.append((g, gs))
         ch.shuffle(blocks)
-        for g, gs in blocks:
-            if g is None and not (self.trig and ch.flag("default_braces", 0.4)):
+        plan_blocks = [(g, gs, not (g is None and not (self.trig and ch.flag("default_braces", 0.4)))) for g, gs in blocks]
+        # units between which a base directive may stand: a top-level statement, or a whole graph block
+        units = []
+        for g, gs, braces in plan_blocks:
+            if not braces:
+                units += [self._group_iris(s_, pos_) for s_, pos_ in gs]
+            else:
+                u_ = [g[1]] if g is not None and g[0] == "I" else []
+                for s_, pos_ in gs:
+                    u_ += self._group_iris(s_, pos_)
+                units.append(u_)
+        self.plan = self._plan_twins(units) if self.rebase else {}
+        ui = 0
+        for g, gs, braces in plan_blocks:
+            if not braces:
                 for s, pos in gs:
+                    self._unit_start(ui, units[ui])
+                    ui += 1
                     self.subject_group(s, g, pos)
                     self.emit(".", "punct")
                     self.emit_nl()
-                    if ch.flag("base_directive", 0.04):
-                        self.directive_base(ch.choice(BASES))
                 continue
+            self._unit_start(ui, units[ui])
+            ui += 1
             if g is not None:
                 if ch.flag("graph_keyword", 0.5):
                     self.emit(ch.choice(["GRAPH", "graph", "Graph"]) if ch.flag("kw_case", 0.4) else "GRAPH", "kw")
@@ -1333,7 +1447,7 @@ def write_rdfxml(quads, ch, base):
 
 JSONLD_FEATURES = ["j_prefix", "j_term", "j_vocab", "j_base", "j_language", "j_coerce_id", "j_coerce_dt", "j_container_list",
                    "j_list", "j_reverse", "j_native", "j_expanded", "j_graph_wrap", "j_type_kw", "j_ascii", "j_indent",
-                   "j_arrays", "j_nested", "j_split_node", "j_ctx_array", "j_aliases"]
+                   "j_arrays", "j_nested", "j_split_node", "j_ctx_array", "j_vocab_term"]
 _GEN_DELIM_END = re.compile(r"[:/?#\[\]@]$")
 _SIMPLE_LOCAL = re.compile(r"^[A-Za-z0-9_.\-~%é\u4e2d\u6587·]+$")
 
@@ -1372,7 +1486,7 @@ def write_jsonld(quads, ch, base):
         for ns in nss:
             if names and ch.flag("j_prefix", 0.6):
                 prefixes[names.pop()] = ns
-        if preds and ch.flag("j_vocab", 0.4):
+        if preds and ch.flag("j_vocab", 0.5):
             p0 = ch.choice(preds)
             vocab = p0[: max(p0.rfind("#"), p0.rfind("/")) + 1]
         if ch.flag("j_base", 0.3):
@@ -1384,7 +1498,12 @@ def write_jsonld(quads, ch, base):
         ch.shuffle(tnames)
         for p in preds:
             if tnames and p != RDF_TYPE and ch.flag("j_term", 0.4):
-                terms[tnames.pop()] = p
+                local = p[len(vocab):] if vocab is not None and p.startswith(vocab) else None
+                if local and _SIMPLE_LOCAL.match(local) and local not in prefixes and local not in terms \
+                        and local not in tnames and ch.flag("j_vocab_term", 0.5):
+                    terms[local] = p          # a term spelled like its own vocab-relative name
+                else:
+                    terms[tnames.pop()] = p
 
     def compact_iri(i):
         """a string that expands to i as an IRI *key or @type value* (vocab-relative allowed)"""
@@ -1636,41 +1755,68 @@ def write_jsonld(quads, ch, base):
     allnodes = default_nodes + named
     ch.shuffle(allnodes)
     # ---- context (after rendering: only now do we know which terms were used with which coercion)
+    deps = {}     # context key -> keys of the same context it needs (a prefix, "@vocab")
     for n, ns in prefixes.items():
         ctx[n] = ns
     for t, p in terms.items():
         co = coerce.get(t)
         pid = p
-        if prefixes and ch.pick(2):
+        deps[t] = set()
+        local = p[len(vocab):] if vocab is not None and p.startswith(vocab) else None
+        r = ch.pick(4)
+        # (a vocab-relative string that is itself a term or prefix of the context would expand through that term)
+        if local and _SIMPLE_LOCAL.match(local) and (t == local or (r < 2 and local not in terms and local not in prefixes)) \
+                and "j_vocab_term" not in ch.off:
+            pid = local if t != local or ch.pick(2) else None      # vocab-relative @id, or none at all (term = local)
+            deps[t].add("@vocab")
+            ch.used["j_vocab_term"] += 1
+        elif prefixes and r == 2:
             for n, ns in prefixes.items():
                 if p.startswith(ns) and not p[len(ns):].startswith("//"):
                     pid = n + ":" + p[len(ns):]
+                    deps[t].add(n)
                     break
+        d = {} if pid is None else {"@id": pid}
         if co is None:
-            ctx[t] = pid if ch.pick(2) else {"@id": pid}
+            ctx[t] = pid if (pid is not None and ch.pick(2)) else d
         elif co == "@id":
-            ctx[t] = {"@id": pid, "@type": "@id"}
+            ctx[t] = {**d, "@type": "@id"}
         elif isinstance(co, tuple) and co[0] == "@list":
-            ctx[t] = {"@id": pid, "@container": "@list"}
+            ctx[t] = {**d, "@container": "@list"}
         elif isinstance(co, tuple) and co[0] == "lang":
-            ctx[t] = {"@id": pid, "@language": co[1]}
+            ctx[t] = {**d, "@language": co[1]}
         else:
-            ctx[t] = {"@id": pid, "@type": co}
+            ctx[t] = {**d, "@type": co}
     if vocab is not None:
         ctx["@vocab"] = vocab
     if doc_base != base:
         ctx["@base"] = doc_base
     if dlang is not None:
         ctx["@language"] = dlang
+    # Member order inside one context object is irrelevant (JSON-LD 1.1 API 4.1.2: @base, @vocab, @language are taken
+    # first, then every other key creates a term definition, looking up the keys it depends on in the same object).
     items = list(ctx.items())
     ch.shuffle(items)
-    # prefixes must be defined before terms that use them only within one context object: JSON-LD processes a
-    # context object as a whole (order irrelevant), so shuffling is legal
     ctx = dict(items)
+    # An array of contexts is processed in order: a definition may use what the same or an earlier object defines.
+    ctx_parts = None
+    if ctx and ch.flag("j_ctx_array", 0.35):
+        nparts = 2 + ch.pick(2)
+        part = {}
+        for k in ctx:
+            if k not in deps:
+                part[k] = ch.pick(nparts)
+        for k in ctx:
+            if k in deps:
+                lo = max([part[d] for d in deps[k] if d in part] + [0])
+                part[k] = lo + ch.pick(nparts - lo)
+        ctx_parts = [{k: v for k, v in ctx.items() if part[k] == n} for n in range(nparts)]
+        if ch.pick(2):
+            ctx_parts = [c for c in ctx_parts if c]
     if expanded:
         doc = allnodes if (len(allnodes) != 1 or ch.pick(2)) else allnodes[0]
     else:
-        cval = ctx if not (ctx and ch.flag("j_ctx_array", 0.2)) else [ctx, {}]
+        cval = ctx if not ctx_parts else ctx_parts
         if len(allnodes) == 1 and "@graph" not in allnodes[0] and not ch.flag("j_graph_wrap", 0.4):
             doc = dict(allnodes[0])
             if ctx or ch.pick(2):
